@@ -77,8 +77,9 @@ def prop(pid, files, extra=(), streams=(), direct=(), trusted=(), assumptions=()
 
 prop("C01", ["PepitVerif/Props/C01.lean", "PepitVerif/Math/CvxSem.lean", "PepitVerif/Math/Certificate.lean"],
      streams=[stream("resolve (scripted solver, tagged duals, returned dual value, function-level LMIs, primal mode)", "resolve", 150, 3000),
-              stream("tree (symmetrize_dict / prune_dict / constant / remaining terms of check_feasibility on random expressions)", "tree", 150, 3000, offset=73)],
-     direct=[oracle("c01_certificate", 28, 300)],
+              stream("tree (symmetrize_dict / prune_dict / constant / remaining terms of check_feasibility on random expressions)", "tree", 150, 3000, offset=73),
+              stream("collect+cvx (the real CvxpyWrapper: kinds and residuals of the cvxpy constraints it builds, _recover_dual_values on tagged duals, vs Cvx.emit / Cvx.recover)", "collect", 100, 2000, env={"PEPV_TEE": "1", "STUBS": "1"}, offset=83)],
+     direct=[oracle("c01_certificate", 30, 300)],
      trusted=["scripted wrapper (Wrapper subclass) standing for the solver in symbolic streams"],
      assumptions=["that the numbers a real solver returns satisfy KKT is runtime behaviour: monitored by the numeric oracle, not proved"])
 
@@ -119,17 +120,20 @@ prop("C08", ["PepitVerif/Props/C08.lean", "PepitVerif/Math/StepsSem.lean"],
 
 prop("C09", ["PepitVerif/Props/C09.lean", "PepitVerif/Math/Certificate.lean"], only=[r"C09\.", "cert_sound", "trace_mul_nonneg"],
      streams=[stream("steps (recorded relations of the steps the examples are built from)", "steps", 100, 2000, offset=61),
-              stream("cls (class constraints the examples rely on)", "cls", 100, 2000, offset=67)],
+              stream("cls (class constraints the examples rely on)", "cls", 100, 2000, offset=67),
+              stream("collect+cvx (what the pipeline sends and records as sent; the real cvxpy wrapper)", "collect", 80, 1500, env={"PEPV_TEE": "1", "STUBS": "1"}, offset=89),
+              stream("resolve (returned dual value rebuilt from the recorded list of sent constraints)", "resolve", 80, 1500, offset=97)],
      direct=[oracle("c09_runs", 33, 440), oracle("c03_members", 40, 600)],
      trusted=["independent NumPy implementations of 10 method families (harness/oracles5.py), transcribed from the documented algorithms"],
      assumptions=["that each example script implements the method its docstring names is not visible to Lean: sampled by real runs only",
                   "solver accuracy (CLARABEL ~1e-8) enters the comparison with tolerance 1e-5 relative"])
 
-prop("C10", ["PepitVerif/Props/C10.lean"],
-     streams=[stream("tree (expression algebra the examples are written in)", "tree", 100, 1000, offset=71)],
-     direct=[oracle("c10_examples", 40, 103), oracle("c10_refs", 57, 600), oracle("c10_sweeps", 19, 190), oracle("c10_equivalent", 7, 7)],
+prop("C10", ["PepitVerif/Props/C10.lean", "PepitVerif/Math/ClassForms.lean"],
+     streams=[stream("tree (expression algebra the examples are written in)", "tree", 100, 1000, offset=71),
+              stream("cls (class constraints the examples rely on, all parameter regimes)", "cls", 100, 1500, offset=101)],
+     direct=[oracle("c10_examples", 40, 103), oracle("c10_refs", 57, 600), oracle("c10_sweeps", 19, 190), oracle("c10_equivalent", 7, 7), oracle("c10_neighbours", 36, 400)],
      trusted=["hand transcription of 19 published closed forms and their validity ranges (lean/PepitModel/Ref.lean), validated against the pinned tree",
-              "frozen reference table harness/ref_table.json (claim tight/upper per example, closed-form value at the suite tuple) generated from the pinned tree"],
+              "frozen reference tables harness/ref_table.json and harness/ref_neighbours.json (claim tight/upper per example at the suite tuples and at neighbouring tuples: other iteration counts, scaled parameters) generated from the pinned tree"],
      assumptions=["'SDP optimum = closed form for all parameters' is a theorem of the literature per family and is not formalised: this property is decided mostly by correspondence on parameter grids"])
 
 prop("C11", ["PepitVerif/Props/C11.lean"],
@@ -145,11 +149,13 @@ prop("C14", ["PepitVerif/Props/C14.lean"],
 
 prop("C12", ["PepitVerif/Props/C12.lean"],
      streams=[stream("collect in one interpreter history (every program starts with PEP(); the model starts fresh)", "collect", 150, 3000, offset=23),
-              stream("cls in one interpreter history", "cls", 100, 2000, offset=29)],
-     direct=[oracle("c12_history", 10, 150)])
+              stream("cls in one interpreter history", "cls", 100, 2000, offset=29),
+              stream("tree in one interpreter history (module-level null_point / null_expression as operands and accumulators)", "tree", 150, 3000, offset=103)],
+     direct=[oracle("c12_history", 12, 150)])
 
 prop("C13", ["PepitVerif/Props/C13.lean"],
-     streams=[stream("resolve (histories of solves, edits, evaluations of held objects)", "resolve", 200, 4000, offset=31)],
+     streams=[stream("resolve (histories of solves, edits, evaluations of held objects)", "resolve", 200, 4000, offset=31),
+              stream("collect (what a second solve sends after the model was edited: partition constraints, new samples, changed class parameters)", "collect", 150, 3000, offset=107)],
      direct=[oracle("c13_resolve", 14, 120)])
 
 prop("C15", ["PepitVerif/Props/C15.lean", "PepitVerif/Math/PartitionSem.lean"],
